@@ -751,6 +751,25 @@ def body_horosphere(case, ctx):
     else:
         hs = hyperbolic.Horosphere(np.stack([_proj(U), _proj(X)], axis=-2))
     ctx.check(hs.shape == shape, "horosphere composite shape", got=hs.shape, want=shape)
+    # an ideal centre with integer coordinates, given as an integer-typed array ((5, 3, 4):
+    # exactly on the light cone), with the reference points of the case: the Poincare sphere
+    # passes through each reference point and is tangent to the boundary
+    ic = np.zeros(n + 1, dtype=np.int64)
+    ic[:3] = [5, 3, 4]
+    for i, idx in enumerate(unit_iter(shape)):
+        x = np.array(case["units"][i]["x"], dtype=float)
+        hi = hyperbolic.Horosphere(ic.copy(), _proj(x))
+        ci, ri = hi.sphere_parameters("poincare")
+        ci, ri = np.array(ci, dtype=float), float(np.asarray(ri))
+        xp_ = H.klein_to_poincare(x)
+        ui = ic[1:] / 5.0
+        ti = 1e-6 + 4e-8 / float(np.sum((ui - xp_) ** 2))
+        ctx.small("integer-typed ideal centre: reference point on the sphere",
+                  float(np.sqrt(np.sum((xp_ - ci) ** 2))) - ri, ti, unit=i)
+        ctx.small("integer-typed ideal centre: tangent to the unit sphere",
+                  float(np.sqrt(ci @ ci)) + ri - 1.0, 1e-7, unit=i)
+        ctx.small("integer-typed ideal centre: centre towards (3/5, 4/5)",
+                  ci - (1 - ri) * ui, 1e-7, unit=i)
     centre, radius = hs.sphere_parameters(model)
     centre, radius = np.array(centre), np.array(radius)
     ctx.check(centre.shape == shape + (n,) and radius.shape == shape,
